@@ -1082,3 +1082,112 @@ Proof.
   exists [MAdd (mk 100 1) (bs "b"); MDel (mk 5 0) qa; MPersistTick], qa, (bs "b").
   split; [discriminate|]. split; [reflexivity|]. split; [reflexivity|]. vm_compute. discriminate.
 Qed.
+
+(* ------------------------------------------------------------ C04: "not purged SINCE" - purges before the first write of the key are harmless *)
+Definition untouched (k : key) (l : mlabel) : bool := negb (is_write_of k l) && negb (is_del_of k l).
+
+Definition clean_fly (k : key) (f : option inflight) : Prop :=
+  match f with Some f => kv_mem (if_add f) k = false /\ kv_mem (if_del f) k = false | None => True end.
+Definition clean (k : key) (st : mstore) : Prop :=
+  ms_wf st /\ ms_engine st = Badger /\ ms_persistent st = true /\
+  kv_mem (ms_add st) k = false /\ kv_mem (ms_del st) k = false /\ clean_fly k (ms_fly st).
+
+Lemma relays_none : forall k c add, kv_mem add k = false -> relay_in k (relays_of c add) = false.
+Proof.
+  intros k c add H. destruct (relay_in k (relays_of c add)) eqn:E; [|reflexivity].
+  apply relay_in_relays in E. congruence.
+Qed.
+
+Lemma clean_swap : forall k st, clean k st -> clean k (fst (ms_swap st)) /\ snd (ms_swap st) = [].
+Proof.
+  intros k st (Hwf & He & Hp & Ha & Hd & Hf). split; [|unfold ms_swap; destruct (ms_fly st); reflexivity].
+  split; [apply wf_swap; exact Hwf|]. unfold ms_swap. destruct (ms_fly st) as [f|] eqn:E; cbn.
+  - rewrite E. cbn in Hf. destruct Hf. repeat split; assumption.
+  - repeat split; try assumption; try reflexivity; unfold cancel_add, cancel_del; cbn.
+    + apply mem_filter_false with (P := fun x => negb (kv_mem (ms_del st) x)). exact Ha.
+    + apply mem_filter_false with (P := fun x => negb (kv_mem (ms_add st) x)). exact Hd.
+Qed.
+
+Lemma clean_batch : forall k st, clean k st -> clean k (fst (ms_batch st)) /\ relay_in k (snd (ms_batch st)) = false.
+Proof.
+  intros k st Hc. pose proof Hc as (Hwf & He & Hp & Ha & Hd & Hf). unfold ms_batch.
+  destruct (ms_fly st) as [f|] eqn:E; [|split; [exact Hc | reflexivity]].
+  destruct (if_stage f) eqn:Es; [|split; [exact Hc | reflexivity]].
+  rewrite He. cbn [eng_batch]. rewrite gen_confirm_after_batch. cbn [fst snd]. split; [|reflexivity].
+  split; [pose proof (wf_batch st Hwf) as W; unfold ms_batch in W; rewrite E, Es, He in W; exact W|].
+  cbn. repeat split; try assumption; cbn in Hf; tauto.
+Qed.
+
+Lemma clean_confirm : forall k st, clean k st -> clean k (fst (ms_confirm_step st)) /\ relay_in k (snd (ms_confirm_step st)) = false.
+Proof.
+  intros k st Hc. pose proof Hc as (Hwf & He & Hp & Ha & Hd & Hf). unfold ms_confirm_step.
+  destruct (ms_fly st) as [f|] eqn:E; [|split; [exact Hc | reflexivity]].
+  destruct (if_stage f) eqn:Es; [split; [exact Hc | reflexivity]|].
+  rewrite gen_confirm_after_batch. cbn [fst snd]. cbn in Hf. split; [|apply relays_none; tauto].
+  split; [pose proof (wf_confirm st Hwf) as W; unfold ms_confirm_step in W; rewrite E, Es in W; exact W|].
+  cbn. repeat split; assumption.
+Qed.
+
+Lemma clean_step : forall k st l, clean k st -> untouched k l = true ->
+  clean k (fst (ms_step st l)) /\ relay_in k (snd (ms_step st l)) = false.
+Proof.
+  intros k st l Hc Hl. pose proof Hc as (Hwf & He & Hp & Ha & Hd & Hf).
+  unfold untouched in Hl. apply andb_true_iff in Hl as [Hw Hdl]. apply negb_true_iff in Hw, Hdl.
+  destruct l; cbn [ms_step fst snd]; try (split; [|reflexivity]).
+  - split; [apply (wf_step st (MAdd m q)); exact Hwf|]. cbn. repeat split; try assumption.
+    unfold is_write_of in Hw. apply keqb_neq in Hw. rewrite mem_set_other by (intro X; apply Hw; symmetry; exact X). exact Ha.
+  - split; [apply (wf_step st (MUpdate m q)); exact Hwf|]. cbn. repeat split; assumption.
+  - split; [apply (wf_step st (MDel m q)); exact Hwf|]. cbn. repeat split; try assumption.
+    unfold is_del_of in Hdl. apply keqb_neq in Hdl. rewrite mem_set_other by (intro X; apply Hdl; symmetry; exact X). exact Hd.
+  - split; [apply (wf_step st (MPurge q)); exact Hwf|]. cbn. repeat split; assumption.
+  - destruct (ms_iter_from st q id limit). cbn. split; [exact Hc | reflexivity].
+  - exact Hc.
+  - destruct (ms_iter st q limit). cbn. split; [exact Hc | reflexivity].
+  - destruct (ms_recover st q limit). cbn. split; [exact Hc | reflexivity].
+  - destruct (clean_swap k st Hc) as [H1 H2]. rewrite H2. split; [exact H1 | reflexivity].
+  - apply clean_batch. exact Hc.
+  - apply clean_confirm. exact Hc.
+  - rewrite !seq_steps_fst, !seq_steps_snd, !relay_in_app. destruct (clean_swap k st Hc) as [H1 H2]. rewrite H2.
+    destruct (clean_batch k _ H1) as [H3 H4]. destruct (clean_confirm k _ H3) as [H5 H6]. rewrite H4, H6. split; [exact H5 | reflexivity].
+  - split; [apply wf_kill; exact Hwf|]. unfold ms_kill. cbn. rewrite Hp. repeat split; try assumption; reflexivity.
+Qed.
+
+Lemma clean_run : forall k ls st, clean k st -> forallb (untouched k) ls = true ->
+  clean k (fst (ms_run st ls)) /\ relay_in k (snd (ms_run st ls)) = false.
+Proof.
+  induction ls as [|l r IH]; intros st Hc Hs; [split; [exact Hc | reflexivity]|].
+  cbn [forallb] in Hs. apply andb_true_iff in Hs as [Hl Hr]. rewrite run_cons. cbn [fst snd].
+  destruct (clean_step k st l Hc Hl) as [H1 H2]. destruct (IH _ H1 Hr) as [H3 H4].
+  split; [exact H3|]. rewrite relay_in_app, H2, H4. reflexivity.
+Qed.
+
+Lemma clean_dur : forall k st, clean k st -> dur_inv k st false.
+Proof.
+  intros k st (Hwf & He & Hp & Ha & Hd & Hf). unfold dur_inv, fly_del_free, fly_written_in.
+  destruct (ms_fly st) as [f|]; cbn in Hf.
+  - destruct Hf as [Hf1 Hf2]. split; [exact Hwf|]. split; [exact He|]. split; [exact Hp|]. split; [exact Hd|].
+    split; [exact Hf2|]. split; [discriminate|]. intros _ X. congruence.
+  - split; [exact Hwf|]. split; [exact He|]. split; [exact Hp|]. split; [exact Hd|]. split; [exact I|]. split; [discriminate | exact I].
+Qed.
+
+Lemma run_app : forall a b st, ms_run st (a ++ b) =
+  (fst (ms_run (fst (ms_run st a)) b), snd (ms_run st a) ++ snd (ms_run (fst (ms_run st a)) b)).
+Proof.
+  induction a as [|l r IH]; intros b st.
+  - cbn. destruct (ms_run st b). reflexivity.
+  - cbn [app]. rewrite !run_cons, IH. cbn [fst snd]. rewrite app_assoc. reflexivity.
+Qed.
+
+(* before ls1 nothing wrote or Del-requested key k (any purges allowed there); in ls1 no Del of k and no purge covering k *)
+Theorem store_durable_since : forall c ls0 ls1 k,
+  forallb (untouched k) ls0 = true -> forallb (label_safe k) ls1 = true ->
+  relay_in k (snd (ms_run (ms_init Badger true c) (ls0 ++ ls1))) = true ->
+  kv_mem (ms_db (ms_kill (fst (ms_run (ms_init Badger true c) (ls0 ++ ls1))))) k = true.
+Proof.
+  intros c ls0 ls1 k H0 H1 Hr. rewrite run_app in *. cbn [fst snd] in *.
+  assert (Hc : clean k (ms_init Badger true c)).
+  { split; [apply wf_init|]. cbn. repeat split; reflexivity. }
+  destruct (clean_run k ls0 _ Hc H0) as [Hc0 Hr0]. rewrite relay_in_app, Hr0 in Hr. cbn [orb] in Hr.
+  pose proof (dur_run k ls1 _ _ (clean_dur _ _ Hc0) H1) as Hinv. cbn [orb] in Hinv. rewrite Hr in Hinv.
+  apply dur_kill in Hinv. destruct Hinv as (_ & _ & _ & _ & _ & Hb & _). apply Hb. reflexivity.
+Qed.
